@@ -224,6 +224,7 @@ func TestVerifN2HRedirectBin(t *testing.T) {
 		}
 		cmd := exec.Command(bin, args...)
 		cmd.Stderr = nil
+		cmd.SysProcAttr = &syscall.SysProcAttr{Pdeathsig: syscall.SIGKILL} // no orphan if this harness is killed by its timeout
 		if err := cmd.Start(); err != nil {
 			t.Fatal(err)
 		}
